@@ -584,23 +584,23 @@ theorem create_inv (a : CreateArgs R) (hnd : (a.plan.map (·.1)).Nodup) (flt : O
   apply wp_mono (createTxn_inv a hnd flt ms h)
   intro o ms1 h1
   have h1' : onSt Inv ms1 := h1
-  have tail : Pres (onSt Inv) (do commitProcessing a; commitAllocated; deleteMarkers a) := by
+  have tail : Pres (onSt Inv) (do deleteMarkers a; commitProcessing a; commitAllocated) := by
     apply pres_bind
-    · unfold commitProcessing
+    · unfold deleteMarkers
       apply pres_bind (fun _ _ h => h)
       intro msx
-      exact pres_forEach _ (fun p _ => hinert _ _ _ (inert_walRm _ _ _))
+      exact pres_ite _ (pres_forEach _ (fun p _ => hinert _ _ _ (inert_rmMarker _))) (pres_pure _ _)
     · intro _
       apply pres_bind
-      · unfold commitAllocated
+      · unfold commitProcessing
+        apply pres_bind (fun _ _ h => h)
+        intro msx
+        exact pres_forEach _ (fun p _ => hinert _ _ _ (inert_walRm _ _ _))
+      · intro _
+        unfold commitAllocated
         apply pres_bind (fun _ _ h => h)
         intro msx
         exact pres_ite _ (hinert _ _ _ (inert_walRm _ _ _)) (pres_pure _ _)
-      · intro _
-        unfold deleteMarkers
-        apply pres_bind (fun _ _ h => h)
-        intro msx
-        exact pres_ite _ (pres_forEach _ (fun p _ => hinert _ _ _ (inert_rmMarker _))) (pres_pure _ _)
   cases o <;> exact tail flt ms1 h1'
 
 end Eru.Cluster
